@@ -74,6 +74,22 @@ PROPS = {
         assumptions=ASSUME_WB + ["ids with zero-padded digit runs (natural order not total) are only checked for content preservation, not for order"],
         stages=[dict(name="clean_rewrite", run="^TestC10_", quick=500, thorough=5000, shards_quick=4, shards_thorough=16)],
     ),
+    "C14": dict(
+        rule="case = JSON tree (distinct keys incl. empty/unicode/escaped/dotted, numbers of all shapes as literals, escapes, depth <= 5) x presentations (insignificant whitespace incl. CR/TAB, member permutation) "
+             "x input form (string/[]byte/Go value) x options (default, or Width/Indent/SortKeys) x API (MatchJSON/MatchStandaloneJSON), plus one invalid text (truncation, dropped quote/brace, trailing comma, "
+             "bad literals, non-JSON whitespace padding, trailing data) judged invalid by encoding/json. Oracles: relations (1)-(5) of DESIGN §6/C14. non-trivial = every case (each carries an invalid input); "
+             "classes record depth >= 2, exotic numbers, escapes, option kinds; distinct = distinct canonical JSON",
+        assumptions=ASSUME_WB + ["validity oracle is encoding/json.Valid on valid-UTF-8 texts; duplicate member names and a Go string/[]byte passed as 'value' are outside the domain"],
+        stages=[dict(name="json", run="^TestC14_", quick=500, thorough=8000, shards_quick=4, shards_thorough=16)],
+    ),
+    "C19": dict(
+        rule="case = one test (names with '/', '%', unicode) making 1-12 calls (MatchStandaloneSnapshot with arbitrary bytes incl. CR/CRLF/`---`/NUL/invalid UTF-8 and structured values, "
+             "MatchStandaloneJSON, interleaved MatchSnapshot) under configs with/without Filename/Ext (also containing '%'), executed 1-3 times per process. Four processes: record (exact file set and bytes), "
+             "read-only replay (passes, no write), changed values without update (one error, untouched), update (file replaced wholesale, unchanged files not written). "
+             "non-trivial = a value with CR, a terminator-like line, an empty value, >= 2 executions, >= 10 calls, or an update to a shorter value; distinct = distinct canonical JSON",
+        assumptions=ASSUME_WB + ["standalone ordinals count per resolved file pattern (README: _1.snap and _1.snap.html for different Ext)"],
+        stages=[dict(name="standalone", run="^TestC19_", quick=800, thorough=10000, shards_quick=4, shards_thorough=16)],
+    ),
     "C20": dict(
         rule="sequential: histories as C03 (every process executes a test at most once) with all outcome classes (passed, added, updated, failed by mismatch / invalid input / failing matcher / missing on CI / "
              "directory that cannot be created), snaps.Skip* calls, Clean at the end of every process in any mode x sort with stale entries and unaddressed files; oracle: per call exactly one outcome signal "
